@@ -169,9 +169,18 @@ pub fn run_concurrent(prog: &Program, cfg: &EpCfg) -> EpResult {
 						w.thread_start(tid);
 						for a in &acqs {
 							if a.panic {
+								let before = tc.stats.panics_injected;
 								let r = guarded(|| tc.run_acq(a));
 								match r {
-									Ok(()) => {}
+									Ok(()) => {
+										if tc.stats.panics_injected > before {
+											w.violate(
+												"C11",
+												"panic_swallowed",
+												format!("a panic raised inside {} did not reach the caller", acq_desc(a)),
+											);
+										}
+									}
 									Err(Unwound::InjectedPanic) => {
 										// C11: caught at the client boundary
 										tc.key = None;
